@@ -377,7 +377,9 @@ impl<'l> CelCompiler<'l> {
                             range,
                         ),
                     ));
-                } else if self.bindings.get_type(&i).is_some() {
+                } else if self.bindings.get_type(&i).is_some()
+                    && MatchTypePattern::is_pattern_type(&i)
+                {
                     self.tokenizer.next()?;
                     return Ok((
                         CompiledProg::with_bytecode(
